@@ -28,6 +28,8 @@ type Case struct {
 	Terminal string `json:"terminal"` // shutdown | shutdown-inflight | cancel | both
 	Yield    bool   `json:"yield"`
 	HDelay   int    `json:"hdelay"` // handler duration class: 0 none, 1 yield, 2 1-5 ms
+	// InAccept > 0 (terminal "cancel"): the context is cancelled right when the InAccept-th accept callback is entered.
+	InAccept int `json:"in_accept,omitempty"`
 }
 
 // CrashAttrs names the configuration when the child process dies while executing this case.
@@ -63,6 +65,10 @@ func gen(g *mon.Gen) {
 	}
 	for i := 0; i < g.Pick(4, 40); i++ {
 		g.Emit(&Case{Mask: i % 2, Seed: rng.Int63(), K: 0, Terminal: "restart"}) // odd: a first Shutdown attempt that times out comes before the real one
+	}
+	for i := 0; i < g.Pick(6, 60); i++ {
+		// the context ends while an accept callback is running (masks with both the accept and the close callback)
+		g.Emit(&Case{Mask: 12 | i%4, Seed: rng.Int63(), K: 3 + rng.Intn(8), Terminal: "cancel", InAccept: 1 + i%3, Yield: i%2 == 0, HDelay: rng.Intn(3)})
 	}
 	per := g.Pick(6, 200)
 	for mask := 0; mask < 16; mask++ {
@@ -109,6 +115,7 @@ type scenario struct {
 	done     atomic.Int64
 	inflight chan struct{}
 	hdone    chan struct{}
+	inAccept chan struct{}
 }
 
 // runTCP: ListenAndServe on the loopback interface: after Shutdown()==nil (or context cancel) the serve call has returned
@@ -449,7 +456,7 @@ func run(ci any, r *mon.Rec) {
 		runRestart(c, r, rng)
 		return
 	}
-	sc := &scenario{c: c, r: r, l: srvx.NewMemListener(), hstart: map[uint16]int64{}, hend: map[uint16]int64{}, rejected: map[string]bool{}, inflight: make(chan struct{}, 64), hdone: make(chan struct{}, 64)}
+	sc := &scenario{c: c, r: r, l: srvx.NewMemListener(), hstart: map[uint16]int64{}, hend: map[uint16]int64{}, rejected: map[string]bool{}, inflight: make(chan struct{}, 64), hdone: make(chan struct{}, 64), inAccept: make(chan struct{}, 1)}
 	sc.clk = sc.l.Clk
 	a := mon.Attrs{"mask": c.Mask, "terminal": c.Terminal}
 	ctxs := fmt.Sprintf("callbacks{serve:%v error:%v accept:%v close:%v} %d clients terminal=%s yield=%v handler-delay=%d", c.Mask&1 != 0, c.Mask&2 != 0, c.Mask&4 != 0, c.Mask&8 != 0, c.K, c.Terminal, c.Yield, c.HDelay)
@@ -474,9 +481,21 @@ func run(ci any, r *mon.Rec) {
 			sc.mu.Lock()
 			e.rejected = sc.rejected[e.remote]
 			sc.accepts = append(sc.accepts, e)
+			nth := len(sc.accepts)
 			sc.mu.Unlock()
+			if c.InAccept > 0 && nth == c.InAccept {
+				select {
+				case sc.inAccept <- struct{}{}:
+				default:
+				}
+			}
 			if e.rejected {
 				return errors.New("verif: rejected by accept callback")
+			}
+			if c.Terminal == "cancel" || c.Terminal == "both" {
+				// an accept callback that takes a moment (a lookup, a log line): the context may end while it runs - a
+				// connection it then approves is still a connection the close callback will hear about
+				time.Sleep(time.Duration(200+int(e.entry%7)*300) * time.Microsecond)
 			}
 			return nil
 		}
@@ -665,6 +684,12 @@ func run(ci any, r *mon.Rec) {
 	if c.Terminal == "shutdown-inflight" {
 		select {
 		case <-sc.inflight:
+		case <-time.After(1500 * time.Millisecond):
+		}
+	} else if c.InAccept > 0 {
+		// cancel as soon as the chosen accept callback has been entered (it takes at least 200 us)
+		select {
+		case <-sc.inAccept:
 		case <-time.After(1500 * time.Millisecond):
 		}
 	} else if c.Terminal == "shutdown-replying" {
